@@ -653,6 +653,28 @@ Fixpoint backwards (fuel : nat) (c : client) (s : st) (verified newh : header)
       else (None, c, s)
   end.
 
+(* backwards as in the unrepaired source (no comparison after the walk); used only to exhibit F23 *)
+Fixpoint backwards_unfixed (fuel : nat) (c : client) (s : st) (verified newh : header)
+  : option cerr * client * st :=
+  match fuel with
+  | O => (Some X_panic, c, s)
+  | S fuel' =>
+    if h_height newh <? h_height verified then
+      match light_block_from_primary c s (h_height verified - 1) with
+      | (inr e, c1, s1) => (Some (X_back_fetch e), c1, s1)
+      | (inl ib, c1, s1) =>
+        if verify_backwards (lb_hdr ib) verified then backwards_unfixed fuel' c1 s1 (lb_hdr ib) newh
+        else
+          match find_new_primary c1 s1 (h_height newh) true with
+          | (inr _, c2, s2) => (Some X_back_invalid, c2, s2)
+          | (inl nb, c2, s2) =>
+            if negb (lb_hash nb =? hash newh) then (Some X_back_invalid, c2, s2)
+            else backwards_unfixed fuel' c2 s2 verified (lb_hdr nb)
+          end
+      end
+    else (None, c, s)
+  end.
+
 (* ------------------------------------------------------------------ store, verifyLightBlock *)
 
 Definition store_prune (l : list lblock) (size : Z) : list lblock :=
